@@ -151,7 +151,7 @@ def read_task(prop, cfg, tier, seed):
             return dict(len=total, bytes=out)
 
         prefer = [core.bv(count) * V(ss) <= V(16 * MB)]
-        ctx.scenario = Scenario(vars_, build, expect, extra=prefer if block_size <= 8 * MB else [])
+        ctx.scenario = Scenario(vars_, build, expect, prefer=prefer if block_size <= 8 * MB else [])
         if via == "read_sectors":
             res = obj.read_sectors(sector, count)
         else:
